@@ -28,11 +28,15 @@ class Compound(Object):
 
     @classmethod
     def _from_object(cls, compound):
+        if hasattr(compound, "assertion_1"):
+            left, right = compound.assertion_1, compound.assertion_2
+        else:
+            left, right = compound.left, compound.right
         return Compound(
             compound_type=compound.__class__.__name__,
             children=[
-                Object.from_object(compound.left),
-                Object.from_object(compound.right),
+                Object.from_object(left),
+                Object.from_object(right),
             ],
             cls=type(compound),
         )
